@@ -193,7 +193,10 @@ func (h *hist) checkLive(force bool) {
 	rc := h.env.Gate.RemoveCount()
 	for i, b := range h.w.Chain {
 		k := string(b.Root)
-		if h.requested[k] && !h.reqWhileBlocked[k] {
+		// the last final block and everything above it are required whatever was requested; below it a root is
+		// required until its prune has been requested (blocks sharing a root - empty blocks - share that status,
+		// and the root stays required while any block at or above the final one has it)
+		if i < h.w.FinalIdx && h.requested[k] && !h.reqWhileBlocked[k] && !h.rootAtOrAboveFinal(k) {
 			continue
 		}
 		if last, ok := h.lastChecked[k]; ok && last == rc && !force {
@@ -215,6 +218,15 @@ func (h *hist) checkLive(force bool) {
 	}
 }
 
+func (h *hist) rootAtOrAboveFinal(root string) bool {
+	for i := h.w.FinalIdx; i < len(h.w.Chain); i++ {
+		if string(h.w.Chain[i].Root) == root {
+			return true
+		}
+	}
+	return false
+}
+
 // checkGarbage is oracle 2. It applies when pruning is unblocked, the buffer is drained, and the history has no
 // rollback-while-blocked / overflow / inexact period; otherwise the count is only reported.
 func (h *hist) checkGarbage(final bool) {
@@ -226,8 +238,8 @@ func (h *hist) checkGarbage(final bool) {
 	}
 	h.lastGarbage = h.drains
 	reach := map[string]struct{}{}
-	for _, b := range h.w.Chain {
-		if h.requested[string(b.Root)] {
+	for i, b := range h.w.Chain {
+		if i < h.w.FinalIdx && h.requested[string(b.Root)] && !h.rootAtOrAboveFinal(string(b.Root)) {
 			continue
 		}
 		h.r.Eval(1)
@@ -331,7 +343,29 @@ func unhex(s string) []byte {
 	return b
 }
 
-func (h *hist) commit() { h.commitBlock(nil) }
+func (h *hist) commit() {
+	if h.c.Rng.Chance(1, 6) {
+		h.commitEmpty()
+		return
+	}
+	h.commitBlock(nil)
+}
+
+// commitEmpty commits a block that leaves the state root unchanged. It stores no waiting-list entry (MarkForEviction
+// has nothing to store), so it does not complete the known stale-cancel shape; a later state-changing block on the
+// same root does.
+func (h *hist) commitEmpty() {
+	parent := h.w.Head()
+	b, err := h.w.CommitEmpty()
+	if err != nil {
+		h.op("empty commit FAILED")
+		h.opFailed("commit-empty-block", err)
+		return
+	}
+	h.ev("empty_block")
+	h.op(fmt.Sprintf("commit h=%d root=%s on %s [%s]", b.Height, cm.Short(b.Root), cm.Short(parent.Root), b.Desc))
+	h.recordNodes(b, string(parent.Root))
+}
 
 // reprocess rolls the head back and processes the identical block again (same operations, same root): what a node
 // does when it re-processes a block after a rollback. Roots on the chain stay unique; the rolled-back root's
@@ -464,7 +498,9 @@ func (h *hist) rollback() {
 		h.opFailed("rollback", err)
 		return
 	}
-	if wasBlocked {
+	if string(head.Root) == string(prev.Root) {
+		h.ev("rollback_of_empty_block") // PruneStateOnRollback does nothing for equal roots
+	} else if wasBlocked {
 		h.rbBlocked = true
 		h.ev("rollback_while_blocked")
 	} else {
@@ -689,10 +725,11 @@ func runHistory(r *vk.Run, c *vk.Case) {
 func main() {
 	_ = logger.SetLogLevel("*:NONE")
 	r := vk.Start("C09")
-	r.Rule("each case is one chain history of 15-60 ops over 6 accounts + a counter account (unique block roots): commit (balance/code/storage write+delete, account removal/re-creation, in-block slot flip-flops; small key/value sets so node hashes recur across blocks), finalize the next block through the real updateStateStorage (pruning queue 0-3), roll back the head (RevertStateToBlock + PruneStateOnRollback; 1 in 3 rollbacks re-processes the identical block afterwards: same operations, same root), Enter/ExitPruningBufferingMode, real SnapshotState/SetStateCheckpoint of the new final root held at the first traversal read for 1-4 ops. Profiles by case index mod 4: never blocked / blocked but never rolled back while blocked / blocked with rollbacks (explicit) / blocked with rollbacks + real snapshots. A history is non-trivial when at least one prune was executed; distinct = distinct (queue, waiting-list cache, buffer, profile, set of pruning events) signatures.")
+	r.Rule("each case is one chain history of 15-60 ops over 6 accounts + a counter account (unique block roots): commit (1 in 6 an EMPTY block whose root equals its parent's; else balance/code/storage write+delete, account removal/re-creation, in-block slot flip-flops; small key/value sets so node hashes recur across blocks), finalize the next block through the real updateStateStorage (pruning queue 0-3), roll back the head (RevertStateToBlock + PruneStateOnRollback; 1 in 3 rollbacks re-processes the identical block afterwards: same operations, same root), Enter/ExitPruningBufferingMode, real SnapshotState/SetStateCheckpoint of the new final root held at the first traversal read for 1-4 ops. Profiles by case index mod 4: never blocked / blocked but never rolled back while blocked / blocked with rollbacks (explicit) / blocked with rollbacks + real snapshots. A history is non-trivial when at least one prune was executed; distinct = distinct (queue, waiting-list cache, buffer, profile, set of pruning events) signatures.")
 	r.Assume(
 		"the harness's finalize/rollback ordering mirrors CommitBlock->updateState and baseSync.rollBackOneBlock (RevertStateToBlock then PruneStateOnRollback)",
-		"block roots are unique (per-block nonce bump), as in the protocol",
+		"roots of state-changing blocks are unique (per-block nonce bump: a root never comes back after a different one); empty blocks share the root of their parent",
+		"required-live set: the last final block and every block above it, whatever was requested; below it, every root whose prune has not been requested",
 		"the model of the pruning buffer (used only to pick the violation key and to decide where the garbage oracle applies) follows storagePruningManager: CancelPrune is buffered when blocked or the buffer is non-empty, PruneTrie(Old) is buffered when blocked, an unblocked PruneTrie drains",
 		"roots whose prune was requested while pruning is (certainly) blocked stay required until it is unblocked; other requested roots are not required (sound under buffering)",
 		"a failed RemoveAccount is followed by RevertToSnapshot(pre-op journal length), as scProcessor does",
